@@ -66,7 +66,7 @@ BODY = {
     "b6": "",
     "b7": "line1\r\nline2\rline3\n",
     "b8": " ",
-    "t1": "A<noinclude>doc {{x}}</noinclude>B",
+    "t1": "A<NOINCLUDE>doc {{x}}</NoInclude >B",      # tag names are case-insensitive
     "t2": "pre<onlyinclude>X</onlyinclude>mid<onlyinclude>Y</onlyinclude>post",
     "t3": "<includeonly>I</includeonly>V<noinclude>N",
     "t4": "a<!-- c -->b",
